@@ -59,6 +59,8 @@ struct udp_run
 			in_api = true; it->second.reset(); in_api = false;
 			return;
 		}
+		// moving is only defined for a socket with no operation outstanding
+		if (fault_what == "move" && (rops.count(fault_obj) || waitw_pending[fault_obj])) return;
 		in_fault = true; do_op(o); in_fault = false;
 	}
 	bool fault_applied = false, in_fault = false;
